@@ -124,10 +124,10 @@ async def check_pool(ctx, case):
     if hint and not result.hints:
         ctx.violation("unexpected-value-flag", f"{what}: the unexpected value is not explained in the hints")
         return
-    for q in got_offered:
-        if result.possible_values[q] != "m-" + q:
-            ctx.violation("offered-values", f"{what}: qualifier {q} is offered with the meaning {result.possible_values[q]!r}")
-            return
+    # (the meanings attached to the offered qualifiers are passed through from the maus model; the property does not speak about them:
+    #  counted, not demanded)
+    if all(result.possible_values[q] == "m-" + q for q in got_offered):
+        ctx.count("offered_with_their_own_meaning")
     if len(pool["entries"]) >= 2:
         ctx.nontrivial([pool, sorted(asg.items()), parent, via])
 
